@@ -3,10 +3,10 @@ import FpgoVerif.Proofs.C15MailboxProgress
 import FpgoVerif.Proofs.C15BcqProgress
 import FpgoVerif.Proofs.C15Bcq
 import FpgoVerif.Proofs.C15Cor
+import FpgoVerif.Proofs.C15CorProgress
 import FpgoVerif.Proofs.C15Pool
 import FpgoVerif.Proofs.C15PoolProgress
 import FpgoVerif.Proofs.C15ExecReach
-import FpgoVerif.Gen.Skeletons
 import FpgoVerif.Gen.C15Bodies
 /-! Property theorems for C15 — "Shutdown is safe at any moment".  One transition system per component
     (Model/C15*.lean); every theorem quantifies over all reachable states = all interleavings of any number
@@ -166,8 +166,21 @@ theorem C15_cor_after_zero {cap f s id x ch s' nx} (h : Co.Reach cap f s) (hd : 
   simp
 
 /-- no deadlock (current code, cb38847): once the target's effect has returned, every goroutine still inside
-    YieldFrom or close() can step until all have returned -/
+    YieldFrom or close() can step until all have returned 
+    Per-kind form as for the other components: some occupied kind `k` such that EVERY goroutine at `k` can step,
+    whatever parameters it carries.  Only kind `w` (a caller waiting for the answer to its own request `id`) has a
+    side condition, `Co.live`: the answer to that request is queued — the counters do not record which ids the
+    waiting callers carry; when `k = w` is chosen the target is gone and queued answers exist (as many as waiting
+    callers: `Inv.wcount`). -/
 theorem C15_cor_nodeadlock {cap s} (h : Co.Reach cap true s) (hr : s.retStarted = true)
+    (hb : 0 < s.cnt .r0 ∨ 0 < s.cnt .r1 ∨ 0 < s.cnt .w ∨ 0 < s.cnt .isd ∨
+          0 < s.cnt .gc0 + s.cnt .gc1 + s.cnt .gc2 + s.cnt .gc3) :
+    ∃ k, 0 < s.cnt k ∧ (k = .w → s.answers ≠ []) ∧
+      ∀ pc, Co.kind pc = k → Co.live s pc → ∃ s' nx, Co.gstep s pc false = some (s', nx) :=
+  Co.progressK (Co.inv_reach h) (Co.fixed_const h) hr hb
+
+/-- the weaker form (some atom of some goroutine is enabled) -/
+theorem C15_cor_nodeadlock_exists {cap s} (h : Co.Reach cap true s) (hr : s.retStarted = true)
     (hb : 0 < s.cnt .r0 ∨ 0 < s.cnt .r1 ∨ 0 < s.cnt .w ∨ 0 < s.cnt .isd ∨
           0 < s.cnt .gc0 + s.cnt .gc1 + s.cnt .gc2 + s.cnt .gc3) :
     ∃ pc ch s' nx, Co.gstep s pc ch = some (s', nx) :=
@@ -308,45 +321,47 @@ theorem C15_exec_never_panics_bcq (c b : Nat) (steps : List String) :
 
 /-! ## Protocol tie (regenerated from the repository on every run)
     `C15_body_*`: the exact statements of the small protocol functions (order of flag / close / send, lock mode,
-    recover scope, guards).  `C15_skel_*`: the protocol skeleton of the larger functions. -/
+    recover scope, guards).  `C15_skel_*`: the protocol skeleton of the larger functions.
+    Both are compared as token lists (the strings cut at their blanks: same tokens, same order) because kernel
+    string equality is quadratic in the length. -/
 
-theorem C15_body_HandlerDef_Post : Gen.c15BodyOf "HandlerDef.Post" = some "{ if self.isClosed.Get() { return } defer func() { recover() }() self.ch <- fn }" := by decide +kernel
-theorem C15_body_HandlerDef_Close : Gen.c15BodyOf "HandlerDef.Close" = some "{ self.isClosed.Set(true) close(self.ch) }" := by decide +kernel
-theorem C15_body_HandlerDef_run : Gen.c15BodyOf "HandlerDef.run" = some "{ for fn := range self.ch { fn() } }" := by decide +kernel
-theorem C15_body_ActorDef_Send : Gen.c15BodyOf "ActorDef.Send" = some "{ if self.isClosed.Get() { return } defer func() { recover() }() self.ch <- message }" := by decide +kernel
-theorem C15_body_ActorDef_Close : Gen.c15BodyOf "ActorDef.Close" = some "{ self.isClosed.Set(true) close(self.ch) }" := by decide +kernel
-theorem C15_body_ActorDef_run : Gen.c15BodyOf "ActorDef.run" = some "{ for message := range self.ch { self.effect(self, message) } }" := by decide +kernel
-theorem C15_body_BufferedChannelQueue_notifyWorkers : Gen.c15BodyOf "BufferedChannelQueue.notifyWorkers" = some "{ self.lock.RLock() defer self.lock.RUnlock() if self.isClosed.Get() { return } self.loadWorkerCh.Offer(1) self.freeNodeWorkerCh.Offer(1) }" := by decide +kernel
-theorem C15_body_BufferedChannelQueue_Close : Gen.c15BodyOf "BufferedChannelQueue.Close" = some "{ self.lock.Lock() defer self.lock.Unlock() self.isClosed.Set(true) close(self.loadWorkerCh) close(self.blockingQueue) }" := by decide +kernel
-theorem C15_body_BufferedChannelQueue_Take : Gen.c15BodyOf "BufferedChannelQueue.Take" = some "{ if self.isClosed.Get() { return *new(T), ErrQueueIsClosed } self.notifyWorkers() return self.blockingQueue.Take() }" := by decide +kernel
-theorem C15_body_BufferedChannelQueue_TakeWithTimeout : Gen.c15BodyOf "BufferedChannelQueue.TakeWithTimeout" = some "{ if self.isClosed.Get() { return *new(T), ErrQueueIsClosed } self.notifyWorkers() return self.blockingQueue.TakeWithTimeout(timeout) }" := by decide +kernel
-theorem C15_body_BufferedChannelQueue_Poll : Gen.c15BodyOf "BufferedChannelQueue.Poll" = some "{ if self.isClosed.Get() { return *new(T), ErrQueueIsClosed } self.notifyWorkers() return self.blockingQueue.Poll() }" := by decide +kernel
-theorem C15_body_BufferedChannelQueue_GetChannel : Gen.c15BodyOf "BufferedChannelQueue.GetChannel" = some "{ self.notifyWorkers() return self.blockingQueue }" := by decide +kernel
-theorem C15_body_BufferedChannelQueue_Count : Gen.c15BodyOf "BufferedChannelQueue.Count" = some "{ if self.isClosed.Get() { return 0 } self.lock.RLock() defer self.lock.RUnlock() return len(self.blockingQueue) + self.pool.Count() }" := by decide +kernel
-theorem C15_body_BufferedChannelQueue_Put : Gen.c15BodyOf "BufferedChannelQueue.Put" = some "{ return self.Offer(val) }" := by decide +kernel
-theorem C15_body_ChannelQueue_Offer : Gen.c15BodyOf "ChannelQueue.Offer" = some "{ select { case self <- val: return nil default: return ErrQueueIsFull } }" := by decide +kernel
-theorem C15_body_ChannelQueue_Take : Gen.c15BodyOf "ChannelQueue.Take" = some "{ val, ok := <-self if !ok { return *new(T), ErrQueueIsClosed } return val, nil }" := by decide +kernel
-theorem C15_body_ChannelQueue_Poll : Gen.c15BodyOf "ChannelQueue.Poll" = some "{ select { case val, ok := <-self: if !ok { return *new(T), ErrQueueIsClosed } return val, nil default: return *new(T), ErrQueueIsEmpty } }" := by decide +kernel
-theorem C15_body_ChannelQueue_TakeWithTimeout : Gen.c15BodyOf "ChannelQueue.TakeWithTimeout" = some "{ select { case val, ok := <-self: if !ok { return *new(T), ErrQueueIsClosed } return val, nil case <-time.After(timeout): return *new(T), ErrQueueTakeTimeout } }" := by decide +kernel
-theorem C15_body_CorDef_close : Gen.c15BodyOf "CorDef.close" = some "{ self.isClosed.Set(true) if self.doneCh != nil { close(self.doneCh) } self.closedM.Lock() if self.resultCh != nil { close(self.resultCh) } if self.opCh != nil { close(self.opCh) } self.closedM.Unlock() if self.opCh != nil { for op := range self.opCh { if op != nil && op.cor != nil { cor := op.cor cor.doCloseSafe(func() { var zero T cor.resultCh <- zero }) } } } }" := by decide +kernel
-theorem C15_body_CorDef_doCloseSafe : Gen.c15BodyOf "CorDef.doCloseSafe" = some "{ self.closedM.Lock() defer self.closedM.Unlock() if self.IsDone() { return } fn() }" := by decide +kernel
-theorem C15_body_CorDef_receive : Gen.c15BodyOf "CorDef.receive" = some "{ delivered := false self.doCloseSafe(func() { if self.opCh != nil { select { case self.opCh <- &CorOp[T]{cor: cor, val: in}: delivered = true case <-self.doneCh: } } }) return delivered }" := by decide +kernel
-theorem C15_body_CorDef_YieldFrom : Gen.c15BodyOf "CorDef.YieldFrom" = some "{ var result T if self.IsDone() { return result } if !target.receive(self, in) { return result } result, _ = <-self.resultCh return result }" := by decide +kernel
-theorem C15_body_CorDef_YieldRef : Gen.c15BodyOf "CorDef.YieldRef" = some "{ var result T if self.IsDone() { return result } var op *CorOp[T] var more bool op, more = <-self.opCh if more && op != nil && op.cor != nil { cor := op.cor cor.doCloseSafe(func() { cor.resultCh <- out }) } result = op.val return result }" := by decide +kernel
-theorem C15_body_CorDef_Start : Gen.c15BodyOf "CorDef.Start" = some "{ if self.IsDone() || self.isStarted.Get() { return } self.isStarted.Set(true) go func() { self.effect() self.close() }() }" := by decide +kernel
-theorem C15_body_DefaultWorkerPool_Close : Gen.c15BodyOf "worker.DefaultWorkerPool.Close" = some "{ if self.IsClosed() { return } self.isClosed.Set(true) if self.isJobQueueClosedWhenClose { self.jobQueue.Close() } }" := by decide +kernel
-theorem C15_body_DefaultWorkerPool_Schedule : Gen.c15BodyOf "worker.DefaultWorkerPool.Schedule" = some "{ if self.IsClosed() { return ErrWorkerPoolIsClosed } defer self.spawnWorkerCh.Offer(1) err := self.jobQueue.Offer(fn) if err == fpgo.ErrQueueIsFull { return ErrWorkerPoolJobQueueIsFull } return err }" := by decide +kernel
-theorem C15_body_DefaultWorkerPool_IsClosed : Gen.c15BodyOf "worker.DefaultWorkerPool.IsClosed" = some "{ return self.isClosed.Get() }" := by decide +kernel
-theorem C15_body_AtomBool_Set : Gen.c15BodyOf "AtomBool.Set" = some "{ var i int32 i = 0 if value { i = 1 } atomic.StoreInt32(&(self.flag), int32(i)) }" := by decide +kernel
-theorem C15_body_AtomBool_Get : Gen.c15BodyOf "AtomBool.Get" = some "{ if atomic.LoadInt32(&(self.flag)) != 0 { return true } return false }" := by decide +kernel
-theorem C15_skel_BufferedChannelQueue_Offer : Gen.skeletonOf "BufferedChannelQueue.Offer" = some "call(lock.Lock) defer{call(lock.Unlock)} if[get(isClosed) call(isClosed.Get)]{return} get(pool) call(pool.Count) if[]{call(blockingQueue.Offer) if[]{return}else{if[]{}else{return}}} if[]{return} get(pool) call(pool.Offer) call(loadWorkerCh.Offer) return" := by decide +kernel
-theorem C15_skel_BufferedChannelQueue_loadFromPool : Gen.skeletonOf "BufferedChannelQueue.loadFromPool" = some "rangech(loadWorkerCh){if[get(isClosed) call(isClosed.Get)]{break} call(lock.Lock) if[get(isClosed) call(isClosed.Get)]{call(lock.Unlock) break} for[get(pool) call(pool.Count)]{get(pool) call(pool.Poll) if[]{break} call(blockingQueue.Offer) if[]{get(pool) call(pool.Unshift) break}} call(lock.Unlock) call(Sleep)}" := by decide +kernel
-theorem C15_skel_BufferedChannelQueue_freeNodePool : Gen.skeletonOf "BufferedChannelQueue.freeNodePool" = some "rangech(freeNodeWorkerCh){call(Sleep) if[get(isClosed) call(isClosed.Get)]{break} call(lock.Lock) if[get(pool)]{get(pool) call(pool.KeepNodePoolCount)} call(lock.Unlock)}" := by decide +kernel
-theorem C15_skel_NewBufferedChannelQueue : Gen.skeletonOf "NewBufferedChannelQueue" = some "call(NewLinkedListQueue) set(pool) call(NewChannelQueue) call(NewChannelQueue) call(NewChannelQueue) go{call(freeNodePool)} go{call(loadFromPool)} return" := by decide +kernel
-theorem C15_skel_HandlerDef_NewByCh : Gen.skeletonOf "HandlerDef.NewByCh" = some "go{call(run)} return" := by decide +kernel
-theorem C15_skel_ActorNewByOptionsGenerics : Gen.skeletonOf "ActorNewByOptionsGenerics" = some "go{call(run)} return" := by decide +kernel
-theorem C15_skel_DefaultWorkerPool_generateWorkerWithMaximum : Gen.skeletonOf "worker.DefaultWorkerPool.generateWorkerWithMaximum" = some "call(lock.Lock) defer{call(lock.Unlock)} if[get(workerCount) get(workerCount)]{return} get(workerCount) set(workerCount) go{defer{call(recover) if[]{if[]{callfn(handler)}} call(lock.Lock) if[]{get(workerCount) set(workerCount)} if[]{get(workerBusy) set(workerBusy)} call(lock.Unlock) if[]{call(spawnWorkerCh.Offer)}} for[]{if[call(IsClosed)]{return} select{call(jobQueue.GetChannel) recv(jobQueue.GetChannel())=>{if[]{call(lock.Lock) get(workerBusy) set(workerBusy) call(lock.Unlock) callfn(job) call(lock.Lock) get(workerBusy) set(workerBusy) call(lock.Unlock)}} | call(After) recv(After())=>{call(lock.Lock) get(workerCount) set(workerCount) if[]{get(workerCount) set(workerCount) call(lock.Unlock) break} call(lock.Unlock)}}}}" := by decide +kernel
-theorem C15_skel_DefaultWorkerPool_spawnLoop : Gen.skeletonOf "worker.DefaultWorkerPool.spawnLoop" = some "defer{call(recover) if[]{call(defaultPanicHandler)}} rangech(spawnWorkerCh){if[call(IsClosed)]{break} call(trySpawn) call(Sleep)}" := by decide +kernel
-theorem C15_skel_NewDefaultWorkerPool : Gen.skeletonOf "worker.NewDefaultWorkerPool" = some "call(NewChannelQueue) go{call(spawnLoop)} return" := by decide +kernel
+theorem C15_body_HandlerDef_Post : Gen.c15BodyToksOf "HandlerDef.Post" = some ["{", "if", "self.isClosed.Get()", "{", "return", "}", "defer", "func()", "{", "recover()", "}()", "self.ch", "<-", "fn", "}"] := by decide +kernel
+theorem C15_body_HandlerDef_Close : Gen.c15BodyToksOf "HandlerDef.Close" = some ["{", "self.isClosed.Set(true)", "close(self.ch)", "}"] := by decide +kernel
+theorem C15_body_HandlerDef_run : Gen.c15BodyToksOf "HandlerDef.run" = some ["{", "for", "fn", ":=", "range", "self.ch", "{", "fn()", "}", "}"] := by decide +kernel
+theorem C15_body_ActorDef_Send : Gen.c15BodyToksOf "ActorDef.Send" = some ["{", "if", "self.isClosed.Get()", "{", "return", "}", "defer", "func()", "{", "recover()", "}()", "self.ch", "<-", "message", "}"] := by decide +kernel
+theorem C15_body_ActorDef_Close : Gen.c15BodyToksOf "ActorDef.Close" = some ["{", "self.isClosed.Set(true)", "close(self.ch)", "}"] := by decide +kernel
+theorem C15_body_ActorDef_run : Gen.c15BodyToksOf "ActorDef.run" = some ["{", "for", "message", ":=", "range", "self.ch", "{", "self.effect(self,", "message)", "}", "}"] := by decide +kernel
+theorem C15_body_BufferedChannelQueue_notifyWorkers : Gen.c15BodyToksOf "BufferedChannelQueue.notifyWorkers" = some ["{", "self.lock.RLock()", "defer", "self.lock.RUnlock()", "if", "self.isClosed.Get()", "{", "return", "}", "self.loadWorkerCh.Offer(1)", "self.freeNodeWorkerCh.Offer(1)", "}"] := by decide +kernel
+theorem C15_body_BufferedChannelQueue_Close : Gen.c15BodyToksOf "BufferedChannelQueue.Close" = some ["{", "self.lock.Lock()", "defer", "self.lock.Unlock()", "self.isClosed.Set(true)", "close(self.loadWorkerCh)", "close(self.blockingQueue)", "}"] := by decide +kernel
+theorem C15_body_BufferedChannelQueue_Take : Gen.c15BodyToksOf "BufferedChannelQueue.Take" = some ["{", "if", "self.isClosed.Get()", "{", "return", "*new(T),", "ErrQueueIsClosed", "}", "self.notifyWorkers()", "return", "self.blockingQueue.Take()", "}"] := by decide +kernel
+theorem C15_body_BufferedChannelQueue_TakeWithTimeout : Gen.c15BodyToksOf "BufferedChannelQueue.TakeWithTimeout" = some ["{", "if", "self.isClosed.Get()", "{", "return", "*new(T),", "ErrQueueIsClosed", "}", "self.notifyWorkers()", "return", "self.blockingQueue.TakeWithTimeout(timeout)", "}"] := by decide +kernel
+theorem C15_body_BufferedChannelQueue_Poll : Gen.c15BodyToksOf "BufferedChannelQueue.Poll" = some ["{", "if", "self.isClosed.Get()", "{", "return", "*new(T),", "ErrQueueIsClosed", "}", "self.notifyWorkers()", "return", "self.blockingQueue.Poll()", "}"] := by decide +kernel
+theorem C15_body_BufferedChannelQueue_GetChannel : Gen.c15BodyToksOf "BufferedChannelQueue.GetChannel" = some ["{", "self.notifyWorkers()", "return", "self.blockingQueue", "}"] := by decide +kernel
+theorem C15_body_BufferedChannelQueue_Count : Gen.c15BodyToksOf "BufferedChannelQueue.Count" = some ["{", "if", "self.isClosed.Get()", "{", "return", "0", "}", "self.lock.RLock()", "defer", "self.lock.RUnlock()", "return", "len(self.blockingQueue)", "+", "self.pool.Count()", "}"] := by decide +kernel
+theorem C15_body_BufferedChannelQueue_Put : Gen.c15BodyToksOf "BufferedChannelQueue.Put" = some ["{", "return", "self.Offer(val)", "}"] := by decide +kernel
+theorem C15_body_ChannelQueue_Offer : Gen.c15BodyToksOf "ChannelQueue.Offer" = some ["{", "select", "{", "case", "self", "<-", "val:", "return", "nil", "default:", "return", "ErrQueueIsFull", "}", "}"] := by decide +kernel
+theorem C15_body_ChannelQueue_Take : Gen.c15BodyToksOf "ChannelQueue.Take" = some ["{", "val,", "ok", ":=", "<-self", "if", "!ok", "{", "return", "*new(T),", "ErrQueueIsClosed", "}", "return", "val,", "nil", "}"] := by decide +kernel
+theorem C15_body_ChannelQueue_Poll : Gen.c15BodyToksOf "ChannelQueue.Poll" = some ["{", "select", "{", "case", "val,", "ok", ":=", "<-self:", "if", "!ok", "{", "return", "*new(T),", "ErrQueueIsClosed", "}", "return", "val,", "nil", "default:", "return", "*new(T),", "ErrQueueIsEmpty", "}", "}"] := by decide +kernel
+theorem C15_body_ChannelQueue_TakeWithTimeout : Gen.c15BodyToksOf "ChannelQueue.TakeWithTimeout" = some ["{", "select", "{", "case", "val,", "ok", ":=", "<-self:", "if", "!ok", "{", "return", "*new(T),", "ErrQueueIsClosed", "}", "return", "val,", "nil", "case", "<-time.After(timeout):", "return", "*new(T),", "ErrQueueTakeTimeout", "}", "}"] := by decide +kernel
+theorem C15_body_CorDef_close : Gen.c15BodyToksOf "CorDef.close" = some ["{", "self.isClosed.Set(true)", "if", "self.doneCh", "!=", "nil", "{", "close(self.doneCh)", "}", "self.closedM.Lock()", "if", "self.resultCh", "!=", "nil", "{", "close(self.resultCh)", "}", "if", "self.opCh", "!=", "nil", "{", "close(self.opCh)", "}", "self.closedM.Unlock()", "if", "self.opCh", "!=", "nil", "{", "for", "op", ":=", "range", "self.opCh", "{", "if", "op", "!=", "nil", "&&", "op.cor", "!=", "nil", "{", "cor", ":=", "op.cor", "cor.doCloseSafe(func()", "{", "var", "zero", "T", "cor.resultCh", "<-", "zero", "})", "}", "}", "}", "}"] := by decide +kernel
+theorem C15_body_CorDef_doCloseSafe : Gen.c15BodyToksOf "CorDef.doCloseSafe" = some ["{", "self.closedM.Lock()", "defer", "self.closedM.Unlock()", "if", "self.IsDone()", "{", "return", "}", "fn()", "}"] := by decide +kernel
+theorem C15_body_CorDef_receive : Gen.c15BodyToksOf "CorDef.receive" = some ["{", "delivered", ":=", "false", "self.doCloseSafe(func()", "{", "if", "self.opCh", "!=", "nil", "{", "select", "{", "case", "self.opCh", "<-", "&CorOp[T]{cor:", "cor,", "val:", "in}:", "delivered", "=", "true", "case", "<-self.doneCh:", "}", "}", "})", "return", "delivered", "}"] := by decide +kernel
+theorem C15_body_CorDef_YieldFrom : Gen.c15BodyToksOf "CorDef.YieldFrom" = some ["{", "var", "result", "T", "if", "self.IsDone()", "{", "return", "result", "}", "if", "!target.receive(self,", "in)", "{", "return", "result", "}", "result,", "_", "=", "<-self.resultCh", "return", "result", "}"] := by decide +kernel
+theorem C15_body_CorDef_YieldRef : Gen.c15BodyToksOf "CorDef.YieldRef" = some ["{", "var", "result", "T", "if", "self.IsDone()", "{", "return", "result", "}", "var", "op", "*CorOp[T]", "var", "more", "bool", "op,", "more", "=", "<-self.opCh", "if", "more", "&&", "op", "!=", "nil", "&&", "op.cor", "!=", "nil", "{", "cor", ":=", "op.cor", "cor.doCloseSafe(func()", "{", "cor.resultCh", "<-", "out", "})", "}", "result", "=", "op.val", "return", "result", "}"] := by decide +kernel
+theorem C15_body_CorDef_Start : Gen.c15BodyToksOf "CorDef.Start" = some ["{", "if", "self.IsDone()", "||", "self.isStarted.Get()", "{", "return", "}", "self.isStarted.Set(true)", "go", "func()", "{", "self.effect()", "self.close()", "}()", "}"] := by decide +kernel
+theorem C15_body_DefaultWorkerPool_Close : Gen.c15BodyToksOf "worker.DefaultWorkerPool.Close" = some ["{", "if", "self.IsClosed()", "{", "return", "}", "self.isClosed.Set(true)", "if", "self.isJobQueueClosedWhenClose", "{", "self.jobQueue.Close()", "}", "}"] := by decide +kernel
+theorem C15_body_DefaultWorkerPool_Schedule : Gen.c15BodyToksOf "worker.DefaultWorkerPool.Schedule" = some ["{", "if", "self.IsClosed()", "{", "return", "ErrWorkerPoolIsClosed", "}", "defer", "self.spawnWorkerCh.Offer(1)", "err", ":=", "self.jobQueue.Offer(fn)", "if", "err", "==", "fpgo.ErrQueueIsFull", "{", "return", "ErrWorkerPoolJobQueueIsFull", "}", "return", "err", "}"] := by decide +kernel
+theorem C15_body_DefaultWorkerPool_IsClosed : Gen.c15BodyToksOf "worker.DefaultWorkerPool.IsClosed" = some ["{", "return", "self.isClosed.Get()", "}"] := by decide +kernel
+theorem C15_body_AtomBool_Set : Gen.c15BodyToksOf "AtomBool.Set" = some ["{", "var", "i", "int32", "i", "=", "0", "if", "value", "{", "i", "=", "1", "}", "atomic.StoreInt32(&(self.flag),", "int32(i))", "}"] := by decide +kernel
+theorem C15_body_AtomBool_Get : Gen.c15BodyToksOf "AtomBool.Get" = some ["{", "if", "atomic.LoadInt32(&(self.flag))", "!=", "0", "{", "return", "true", "}", "return", "false", "}"] := by decide +kernel
+theorem C15_skel_BufferedChannelQueue_Offer : Gen.c15SkelToksOf "BufferedChannelQueue.Offer" = some ["call(lock.Lock)", "defer{call(lock.Unlock)}", "if[get(isClosed)", "call(isClosed.Get)]{return}", "get(pool)", "call(pool.Count)", "if[]{call(blockingQueue.Offer)", "if[]{return}else{if[]{}else{return}}}", "if[]{return}", "get(pool)", "call(pool.Offer)", "call(loadWorkerCh.Offer)", "return"] := by decide +kernel
+theorem C15_skel_BufferedChannelQueue_loadFromPool : Gen.c15SkelToksOf "BufferedChannelQueue.loadFromPool" = some ["rangech(loadWorkerCh){if[get(isClosed)", "call(isClosed.Get)]{break}", "call(lock.Lock)", "if[get(isClosed)", "call(isClosed.Get)]{call(lock.Unlock)", "break}", "for[get(pool)", "call(pool.Count)]{get(pool)", "call(pool.Poll)", "if[]{break}", "call(blockingQueue.Offer)", "if[]{get(pool)", "call(pool.Unshift)", "break}}", "call(lock.Unlock)", "call(Sleep)}"] := by decide +kernel
+theorem C15_skel_BufferedChannelQueue_freeNodePool : Gen.c15SkelToksOf "BufferedChannelQueue.freeNodePool" = some ["rangech(freeNodeWorkerCh){call(Sleep)", "if[get(isClosed)", "call(isClosed.Get)]{break}", "call(lock.Lock)", "if[get(pool)]{get(pool)", "call(pool.KeepNodePoolCount)}", "call(lock.Unlock)}"] := by decide +kernel
+theorem C15_skel_NewBufferedChannelQueue : Gen.c15SkelToksOf "NewBufferedChannelQueue" = some ["call(NewLinkedListQueue)", "set(pool)", "call(NewChannelQueue)", "call(NewChannelQueue)", "call(NewChannelQueue)", "go{call(freeNodePool)}", "go{call(loadFromPool)}", "return"] := by decide +kernel
+theorem C15_skel_HandlerDef_NewByCh : Gen.c15SkelToksOf "HandlerDef.NewByCh" = some ["go{call(run)}", "return"] := by decide +kernel
+theorem C15_skel_ActorNewByOptionsGenerics : Gen.c15SkelToksOf "ActorNewByOptionsGenerics" = some ["go{call(run)}", "return"] := by decide +kernel
+theorem C15_skel_DefaultWorkerPool_generateWorkerWithMaximum : Gen.c15SkelToksOf "worker.DefaultWorkerPool.generateWorkerWithMaximum" = some ["call(lock.Lock)", "defer{call(lock.Unlock)}", "if[get(workerCount)", "get(workerCount)]{return}", "get(workerCount)", "set(workerCount)", "go{defer{call(recover)", "if[]{if[]{callfn(handler)}}", "call(lock.Lock)", "if[]{get(workerCount)", "set(workerCount)}", "if[]{get(workerBusy)", "set(workerBusy)}", "call(lock.Unlock)", "if[]{call(spawnWorkerCh.Offer)}}", "for[]{if[call(IsClosed)]{return}", "select{call(jobQueue.GetChannel)", "recv(jobQueue.GetChannel())=>{if[]{call(lock.Lock)", "get(workerBusy)", "set(workerBusy)", "call(lock.Unlock)", "callfn(job)", "call(lock.Lock)", "get(workerBusy)", "set(workerBusy)", "call(lock.Unlock)}}", "|", "call(After)", "recv(After())=>{call(lock.Lock)", "get(workerCount)", "set(workerCount)", "if[]{get(workerCount)", "set(workerCount)", "call(lock.Unlock)", "break}", "call(lock.Unlock)}}}}"] := by decide +kernel
+theorem C15_skel_DefaultWorkerPool_spawnLoop : Gen.c15SkelToksOf "worker.DefaultWorkerPool.spawnLoop" = some ["defer{call(recover)", "if[]{call(defaultPanicHandler)}}", "rangech(spawnWorkerCh){if[call(IsClosed)]{break}", "call(trySpawn)", "call(Sleep)}"] := by decide +kernel
+theorem C15_skel_NewDefaultWorkerPool : Gen.c15SkelToksOf "worker.NewDefaultWorkerPool" = some ["call(NewChannelQueue)", "go{call(spawnLoop)}", "return"] := by decide +kernel
 
 end FpgoVerif.C15
